@@ -56,6 +56,7 @@ ExtPlaces ==
   { [env |-> "x64-sysv", conv |-> "cdecl", pre |-> <<>>, gp |-> 7, vec |-> 0, other |-> 3],
     [env |-> "x64-win", conv |-> "cdecl", pre |-> <<>>, gp |-> 1, vec |-> 0, other |-> 6],
     [env |-> "x64-sysv", conv |-> "cdecl", pre |-> Rep("i64", 6) \o Rep("f64", 8), gp |-> 255, vec |-> 255, other |-> 3],
+    [env |-> "x64-win", conv |-> "cdecl", pre |-> Rep("i64", 4), gp |-> 255, vec |-> 255, other |-> 6],
     [env |-> "x86-sysv", conv |-> "cdecl", pre |-> <<>>, gp |-> 255, vec |-> 255, other |-> 1],
     [env |-> "x86-sysv", conv |-> "fastcall", pre |-> <<>>, gp |-> 1, vec |-> 255, other |-> 3],
     [env |-> "a64-aapcs", conv |-> "cdecl", pre |-> <<>>, gp |-> 0, vec |-> 0, other |-> 9],
@@ -65,10 +66,13 @@ ExtDsts(pl, t) ==
   IF t \in IntTypes
   THEN { DReg(kd[1], id, kd[2]) : kd \in { kd \in GpDstKinds : ~(Is32Env(pl.env) /\ kd[1] = "gp64") },
                                    id \in (IF pl.gp = 255 THEN {pl.other} ELSE {pl.gp, pl.other}) }
-       \cup { DStk(16, dt) : dt \in {"", "i32", "u32", "i64", "u64"} \ (IF Is32Env(pl.env) THEN {"i64", "u64"} ELSE {}) }
+       \* stack destinations declared with the same, a wider signed / unsigned, or a narrower integer type
+       \cup { DStk(16, dt) : dt \in {"", "i8", "u16", "i32", "u32", "i64", "u64"} \ (IF Is32Env(pl.env) THEN {"i64", "u64"} ELSE {}) }
+  ELSE IF t = "f32x4"
+  THEN { DReg("vec128", id, "") : id \in (IF pl.vec = 255 THEN {pl.other} ELSE {pl.vec, pl.other}) } \cup { DStk(16, ""), DStk(32, "f32x4") }
   ELSE { DReg(kd[1], id, kd[2]) : kd \in FpDstKinds, id \in (IF pl.vec = 255 THEN {pl.other} ELSE {pl.vec, pl.other}) }
        \cup { DStk(16, dt) : dt \in {"", "f32x1", "f64x1"} }
-ExtTypes(pl) == (IF Is32Env(pl.env) THEN IntTypes \ {"i64", "u64"} ELSE IntTypes) \cup {"f32", "f64"}
+ExtTypes(pl) == (IF Is32Env(pl.env) THEN IntTypes \ {"i64", "u64"} ELSE IntTypes) \cup {"f32", "f64"} \cup (IF Is32Env(pl.env) THEN {} ELSE {"f32x4"})
 PadDst(pl) == [q \in 1..Len(pl.pre) |-> DNone]
 ExtCases ==
   UNION { UNION { { MkCase(pl.env, pl.conv, pl.pre \o <<t>>, PadDst(pl) \o <<d>>, 0, avx, 255, 0, IF d.k = "stack" THEN 64 ELSE 0)
